@@ -103,6 +103,7 @@ class RegistryServer(object):
     def cmd_register(self, host, names, port):
         """implementation of the ``register`` command"""
         self.logger.debug("registering %s:%s as %s", host, port, ", ".join(names))
+        brine.dump(((host, port),))  # refuse a server that could not be sent back in the reply to a query
         for name in names:
             self._add_service(name.upper(), (host, port))
         return "OK"
@@ -143,10 +144,11 @@ class RegistryServer(object):
 
             try:
                 reply = cmdfunc(addrinfo[0], *args)
+                data = brine.dump(reply)
             except Exception:
                 self.logger.exception('error executing function')
             else:
-                self._send(brine.dump(reply), addrinfo)
+                self._send(data, addrinfo)
 
     def start(self):
         """Starts the registry server (blocks)"""
